@@ -10,9 +10,11 @@ CONSTANTS
   BugPtr = FALSE
   BugWait = FALSE
   BugListen = FALSE
+  Mut = ""
 CONSTRAINT Mark
 INVARIANT QuiescentAnnounced
 INVARIANT DeliveryInAnnouncedEpoch
+INVARIANT RequestsNamedAndCurrent
 INVARIANT QuiescentWants
 INVARIANT OneActiveSession
 INVARIANT OneActiveListen
